@@ -293,6 +293,10 @@ func (matrix *SparseReal64Matrix) AsVector() Vector {
   return matrix.AsSparseReal64Vector()
 }
 func (matrix *SparseReal64Matrix) storageLocation() uintptr {
+  if matrix.values.Dim() == 0 {
+    // matrices without elements have no storage to share
+    return uintptr(unsafe.Pointer(matrix))
+  }
   return uintptr(unsafe.Pointer(matrix.values.AT(0)))
 }
 /* const interface
